@@ -1,5 +1,160 @@
 package main
 
-func traceBegin(req *RunReq) *tracer { return &tracer{on: req.Trace} }
+import (
+	"context"
+	"math/rand"
+	"runtime"
+	"sync"
+	"time"
 
-func traceEnd(t *tracer) []map[string]any { return nil }
+	"github.com/smarthome-go/homescript/v3/homescript/compiler"
+	"github.com/smarthome-go/homescript/v3/homescript/interpreter"
+	hmsrt "github.com/smarthome-go/homescript/v3/homescript/runtime"
+)
+
+// The recorder behind the verif hooks of /repo.  Events are appended under one mutex, so their
+// order in the trace is a total order consistent with every lock-protected action (the hooks are
+// called while the protecting lock is still held).
+
+type recorder struct {
+	mu       sync.Mutex
+	events   []map[string]any
+	seq      int
+	vm       *hmsrt.VM
+	polls    int
+	cancelAt int
+	cancel   context.CancelFunc
+	jitter   *rand.Rand
+	instr    bool
+	instrMax int
+	afterCancel map[int64]int // instructions executed per core after the cancel was issued
+	cancelled   bool
+	gate     *gates
+}
+
+var rec *recorder
+
+func (r *recorder) add(ev map[string]any) {
+	r.seq++
+	ev["q"] = r.seq
+	r.events = append(r.events, ev)
+}
+
+func traceBegin(req *RunReq) *tracer {
+	if !req.Trace && req.CancelAt == 0 && req.Sched == nil {
+		hmsrt.VerifHook = nil
+		hmsrt.VerifInstr = nil
+		interpreter.VerifHook = nil
+		rec = nil
+		return &tracer{}
+	}
+	r := &recorder{cancelAt: req.CancelAt, instr: req.TraceInstr, instrMax: 200000, afterCancel: map[int64]int{}}
+	if req.Jitter != 0 {
+		r.jitter = rand.New(rand.NewSource(req.Jitter))
+	}
+	if req.Sched != nil {
+		r.gate = newGates(req.Sched)
+	}
+	rec = r
+	hmsrt.VerifHook = func(ev string, core int64, arg string) {
+		if r.gate != nil {
+			r.gate.arrive(ev, core, arg)
+		}
+		r.mu.Lock()
+		e := map[string]any{"e": ev, "c": core}
+		if arg != "" {
+			e["a"] = arg
+		}
+		switch ev {
+		case "Poll":
+			r.polls++
+			e["k"] = r.polls
+			if r.cancelAt > 0 && r.polls == r.cancelAt && r.cancel != nil {
+				r.cancelled = true
+				r.add(map[string]any{"e": "Cancel", "c": -1})
+				r.cancel()
+			}
+		case "SpawnLock", "WaitNilLock", "WaitErrLock", "SpawnAppend", "WaitNilAssign", "WaitErrCancel":
+			// the write lock must really be held here: a reader must not get in
+			if r.vm != nil {
+				if r.vm.Cores.Lock.TryRLock() {
+					r.vm.Cores.Lock.RUnlock()
+					e["held"] = false
+				} else {
+					e["held"] = true
+				}
+			}
+		case "WaitRLock":
+			if r.vm != nil {
+				if r.vm.Cores.Lock.TryLock() {
+					r.vm.Cores.Lock.Unlock()
+					e["held"] = false
+				} else {
+					e["held"] = true
+				}
+			}
+		}
+		r.add(e)
+		j := r.jitter
+		var d int
+		if j != nil {
+			d = j.Intn(40)
+		}
+		r.mu.Unlock()
+		if j != nil {
+			switch {
+			case d < 8:
+				runtime.Gosched()
+			case d < 10:
+				time.Sleep(time.Duration(d) * 20 * time.Microsecond)
+			}
+		}
+	}
+	hmsrt.VerifInstr = func(c *hmsrt.Core, i compiler.Instruction) {
+		r.mu.Lock()
+		if r.cancelled {
+			r.afterCancel[int64(c.Corenum)]++
+		}
+		if r.instr && len(r.events) < r.instrMax {
+			fr := c.CallStack[len(c.CallStack)-1]
+			r.add(map[string]any{"e": "I", "c": int64(c.Corenum), "f": fr.Function, "ip": fr.InstructionPointer,
+				"op": i.Opcode().String(), "sh": len(c.Stack), "cs": len(c.CallStack), "mp": c.MemoryPointer,
+				"nh": len(c.ExceptionCatchLabels)})
+		}
+		r.mu.Unlock()
+	}
+	interpreter.VerifHook = func(ev string, n int64) {
+		r.mu.Lock()
+		if ev == "Poll" {
+			r.polls++
+			if r.cancelAt > 0 && r.polls == r.cancelAt && r.cancel != nil {
+				r.cancelled = true
+				r.add(map[string]any{"e": "Cancel", "c": -1})
+				r.cancel()
+			}
+			if r.cancelled {
+				r.afterCancel[-2]++
+			}
+		}
+		r.mu.Unlock()
+	}
+	return &tracer{on: true}
+}
+
+func traceEnd(t *tracer) []map[string]any {
+	if rec == nil {
+		return nil
+	}
+	r := rec
+	if r.gate != nil {
+		r.gate.finish()
+	}
+	r.mu.Lock()
+	defer r.mu.Unlock()
+	ev := r.events
+	r.events = nil
+	hmsrt.VerifHook = nil
+	hmsrt.VerifInstr = nil
+	interpreter.VerifHook = nil
+	return ev
+}
